@@ -137,7 +137,7 @@ fn body(r: &mut Rng) -> String {
         1 => "foo()".to_owned(),
         2 => format!("x = {}", plain_value(r)),
         3 => format!("local z = {}\n print(z)", number(r)),
-        4 => "return".to_owned(),
+        4 => "foo()\n return".to_owned(),
         _ => format!("t[{}] = {}", number(r), r.pick(&STR_A)),
     }
 }
@@ -233,7 +233,7 @@ pub fn template(r: &mut Rng, which: usize) -> Tmpl {
                 4 => t("if_same_then_else", "three-same", true, format!("if {c} then\n  {b}\nelseif {d} then\n  {b}\nelse\n  {b}\nend")),
                 5 => t("if_same_then_else", "respelled-number", n1 == n2, format!("if {c} then\n  print({n1})\nelse\n  print({n2})\nend")),
                 6 => t("if_same_then_else", "respelled-string", s1 == s2, format!("if {c} then\n  print({s1})\nelse\n  print({s2})\nend")),
-                7 => t("if_same_then_else", "separator", false, format!("if {c} then\n  x = {{1, 2}}\nelse\n  x = {{1; 2}}\nend")),
+                7 => t("if_same_then_else", "separator", true, format!("if {c} then\n  x = {{1, 2}}\nelse\n  x = {{1; 2}}\nend")),
                 8 => t("if_same_then_else", "semicolon", false, format!("if {c} then\n  foo();\nelse\n  foo()\nend")),
                 9 => t("if_same_then_else", "different", false, format!("if {c} then\n  foo()\nelse\n  bar()\nend")),
                 10 => t("if_same_then_else", "only-return", false, format!("if {c} then\n  return 1\nelse\n  return 1\nend")),
@@ -250,8 +250,8 @@ pub fn template(r: &mut Rng, which: usize) -> Tmpl {
             let n2 = *r.pick(&TWO);
             match r.below(11) {
                 0 => t("ifs_same_cond", "same", true, format!("if {c} then\n  foo()\nelseif {c} then\n  bar()\nend")),
-                1 => t("ifs_same_cond", "same-later", c != d, format!("if {c} then\n  foo()\nelseif {d} then\n  bar()\nelseif {c} then\n  baz()\nend")),
-                2 => t("ifs_same_cond", "same-two-elseifs", c != d, format!("if {c} then\n  foo()\nelseif {d} then\n  bar()\nelseif {d} then\n  baz()\nelse\n  q()\nend")),
+                1 => t("ifs_same_cond", "same-later", true, format!("if {c} then\n  foo()\nelseif {d} then\n  bar()\nelseif {c} then\n  baz()\nend")),
+                2 => t("ifs_same_cond", "same-two-elseifs", true, format!("if {c} then\n  foo()\nelseif {d} then\n  bar()\nelseif {d} then\n  baz()\nelse\n  q()\nend")),
                 3 => t("ifs_same_cond", "same-trivia", true, "if x  ==  1 then\n  foo()\nelseif x == --[[c]] 1 then\n  bar()\nend".to_owned()),
                 4 => t("ifs_same_cond", "call", false, format!("if {k} then\n  foo()\nelseif {k} then\n  bar()\nend")),
                 5 => t("ifs_same_cond", "call-in-index", false, format!("if {ix} then\n  foo()\nelseif {ix} then\n  bar()\nend")),
@@ -286,7 +286,7 @@ pub fn template(r: &mut Rng, which: usize) -> Tmpl {
                 0 => t("mismatched_arg_count", "local-function", true, format!("local function foo(a, b)\nend\nfoo({args3})")),
                 1 => t("mismatched_arg_count", "local-assigned-function", true, format!("local foo = function(a)\nend\nfoo({args3})")),
                 2 => t("mismatched_arg_count", "global-function", true, format!("function foo(a, b)\nend\nfoo({args3})")),
-                3 => t("mismatched_arg_count", "global-assigned-function", true, format!("foo = function()\nend\nfoo({})", number(r))),
+                3 => t("mismatched_arg_count", "global-assigned-function", false, format!("foo = function()\nend\nfoo({})", number(r))),
                 4 => t("mismatched_arg_count", "too-many-then-call", true, "local function foo(a, b)\nend\nfoo(1, 2, f())".to_owned()),
                 5 => t("mismatched_arg_count", "too-many-then-vararg", true, "local function foo(a)\nend\nfoo(1, ...)".to_owned()),
                 6 => t("mismatched_arg_count", "string-call", true, format!("local function foo()\nend\nfoo {}", r.pick(&STR_A))),
@@ -319,7 +319,7 @@ pub fn template(r: &mut Rng, which: usize) -> Tmpl {
                 10 => t("multiple_statements", "separate-lines", false, "foo()\nbar()\nbaz()".to_owned()),
                 11 => t("multiple_statements", "multi-line-call", true, "foo(\n  1\n) bar()".to_owned()),
                 12 => t("multiple_statements", "multi-line-string", true, "x = [[\n]] y = 2".to_owned()),
-                _ => t("multiple_statements", "two-line-if", false, "if x then\n  return end".to_owned()),
+                _ => t("multiple_statements", "two-line-if", true, "if x then\n  return end".to_owned()),
             };
             x.inline = r.chance(1, 3);
             x
@@ -428,7 +428,7 @@ pub fn embed(r: &mut Rng, tm: &Tmpl, stats: &mut Vec<String>) -> String {
 // ------------------------------------------------------------------------------------------------
 
 /// fixed programs: the shapes of the departures found so far (run first on every check)
-const WITNESSES: [&str; 9] = [
+const WITNESSES: [&str; 12] = [
     "x = y\na = b\nb = a\n",
     "aandb = x\nx = a and b\n",
     "if a[f()] then\n  foo()\nelseif a[f()] then\n  bar()\nend\n",
@@ -438,6 +438,9 @@ const WITNESSES: [&str; 9] = [
     "a = b\nb = a\n",
     "local function foo(a, b)\nend\nfoo(1, 2, 3)\n",
     "foo() bar() baz()\n",
+    "if x then\n  function f()\n  end\n  f(1, 2)\nelse\n  function f(a, b)\n  end\nend\n",
+    "for c = 1, 2 do\n  c \"str\"\n  function c()\n  end\nend\n",
+    "if x then\n  return 1\nelse\n  return 1\nend\n",
 ];
 
 pub fn run(args: &Args, out: &mut Out) {
